@@ -1,6 +1,7 @@
 package main
 
 import (
+	_ "embed"
 	"fmt"
 	"go/constant"
 	"go/token"
@@ -25,9 +26,151 @@ func eachInstr(f *ssa.Function, fn func(ssa.Instruction)) {
 
 // eachInstrDeep also visits nested closures.
 func eachInstrDeep(f *ssa.Function, fn func(*ssa.Function, ssa.Instruction)) {
-	for _, g := range withAnon(f) {
-		eachInstr(g, func(in ssa.Instruction) { fn(g, in) })
+	seen := map[*ssa.Function]bool{}
+	roots := map[*ssa.Function]bool{}
+	for r := f; r != nil; r = r.Parent() {
+		if r.Parent() == nil {
+			roots[r] = true
+		}
 	}
+	var visit func(g *ssa.Function, depth int)
+	visit = func(g *ssa.Function, depth int) {
+		for _, h := range withAnon(g) {
+			if seen[h] {
+				continue
+			}
+			seen[h] = true
+			eachInstr(h, func(in ssa.Instruction) { fn(h, in) })
+			if depth >= 2 {
+				continue
+			}
+			// a NEW helper (a function the rules were not written against, see baseline_funcs.txt) that is called from
+			// here and nowhere else is part of this function for every rule that scans "f and its closures": extracting
+			// a piece of an anchored function into a helper must not hide it
+			eachInstr(h, func(in ssa.Instruction) {
+				ci, ok := in.(ssa.CallInstruction)
+				if !ok {
+					return
+				}
+				sc := ci.Common().StaticCallee()
+				if sc == nil || seen[sc] || !isNewHelper(sc) || sc.Pkg != h.Pkg {
+					return
+				}
+				if soleCallSite(sc) != in {
+					// several call sites, all of them inside the body being scanned (one helper for three
+					// identical loops of the anchored function)
+					sites, asValue := callSitesOf(sc)
+					if asValue || len(sites) == 0 {
+						return
+					}
+					for _, st := range sites {
+						r := st.Parent()
+						for r.Parent() != nil {
+							r = r.Parent()
+						}
+						if !roots[r] {
+							return
+						}
+					}
+				}
+				roots[sc] = true
+				visit(sc, depth+1)
+			})
+		}
+	}
+	visit(f, 0)
+}
+
+//go:embed baseline_funcs.txt
+var baselineFuncsTxt string
+
+var baselineFuncs map[string]bool
+
+// isNewHelper: f is a source function of the analysed module (with a body, not a closure) that did not exist when the
+// rules were written.
+func isNewHelper(f *ssa.Function) bool {
+	if f == nil || len(f.Blocks) == 0 || f.Parent() != nil || !inMosdns(f) {
+		return false
+	}
+	if baselineFuncs == nil {
+		baselineFuncs = map[string]bool{}
+		for _, l := range strings.Split(baselineFuncsTxt, "\n") {
+			if l = strings.TrimSpace(l); l != "" {
+				baselineFuncs[l] = true
+			}
+		}
+	}
+	return !baselineFuncs[funcName(f)]
+}
+
+// withNewHelpers: f, its closures, and the NEW helpers (see isNewHelper) whose only call site lies inside that set:
+// the functions that make up "the body of f" for a rule that asks where something happens.
+func withNewHelpers(f *ssa.Function) map[*ssa.Function]bool {
+	out := map[*ssa.Function]bool{}
+	if f == nil {
+		return out
+	}
+	eachInstrDeep(f, func(g *ssa.Function, _ ssa.Instruction) { out[g] = true })
+	return out
+}
+
+type callSites struct {
+	sites   []ssa.Instruction
+	asValue bool
+}
+
+var callSitesCache = map[*ssa.Function]*callSites{}
+
+// callSitesOf: the instructions of f's package that call f statically, and whether f is also used as a value.
+func callSitesOf(f *ssa.Function) ([]ssa.Instruction, bool) {
+	if v, ok := callSitesCache[f]; ok {
+		return v.sites, v.asValue
+	}
+	res := &callSites{}
+	scan := func(g *ssa.Function) {
+		for _, h := range withAnon(g) {
+			eachInstr(h, func(in ssa.Instruction) {
+				if ci, ok := in.(ssa.CallInstruction); ok && ci.Common().StaticCallee() == f {
+					res.sites = append(res.sites, in)
+					return
+				}
+				for _, op := range in.Operands(nil) {
+					if op != nil && *op == ssa.Value(f) {
+						res.asValue = true
+					}
+				}
+			})
+		}
+	}
+	if f.Pkg != nil {
+		for _, m := range f.Pkg.Members {
+			switch x := m.(type) {
+			case *ssa.Function:
+				scan(x)
+			case *ssa.Type:
+				for _, t := range []types.Type{x.Type(), types.NewPointer(x.Type())} {
+					ms := f.Prog.MethodSets.MethodSet(t)
+					for i := 0; i < ms.Len(); i++ {
+						if g := f.Prog.MethodValue(ms.At(i)); g != nil && g.Pkg == f.Pkg && g.Synthetic == "" {
+							scan(g)
+						}
+					}
+				}
+			}
+		}
+	}
+	callSitesCache[f] = res
+	return res.sites, res.asValue
+}
+
+// soleCallSite: the one instruction of f's package that calls f statically (nil when there are several, none, or f is
+// used as a value).
+func soleCallSite(f *ssa.Function) ssa.Instruction {
+	sites, asValue := callSitesOf(f)
+	if asValue || len(sites) != 1 {
+		return nil
+	}
+	return sites[0]
 }
 
 func shortName(s string) string {
@@ -546,4 +689,98 @@ func fieldBase(v ssa.Value) ssa.Value {
 			return v
 		}
 	}
+}
+
+// sameLoadedPlace: a and b are the same value, or two loads of the same place (go/ssa does no common-subexpression
+// elimination: `if h.Ttl <= d {...} else { h.Ttl -= d }` loads the field twice) — the addresses are structurally the
+// same chain of field selections over the same base value.
+func sameLoadedPlace(a, b ssa.Value) bool {
+	if a == b {
+		return true
+	}
+	la, ok1 := a.(*ssa.UnOp)
+	lb, ok2 := b.(*ssa.UnOp)
+	if !ok1 || !ok2 || la.Op != token.MUL || lb.Op != token.MUL {
+		// two extractions of the same field of one struct value
+		fa, ok1 := a.(*ssa.Field)
+		fb, ok2 := b.(*ssa.Field)
+		return ok1 && ok2 && fa.Field == fb.Field && sameLoadedPlace(fa.X, fb.X)
+	}
+	return sameAddr(la.X, lb.X, 0)
+}
+
+func sameAddr(a, b ssa.Value, depth int) bool {
+	if a == b {
+		return true
+	}
+	if depth > 6 {
+		return false
+	}
+	fa, ok1 := a.(*ssa.FieldAddr)
+	fb, ok2 := b.(*ssa.FieldAddr)
+	if ok1 && ok2 {
+		return fa.Field == fb.Field && sameAddr(fa.X, fb.X, depth+1)
+	}
+	// the base pointer itself loaded twice from the same place
+	la, ok1 := a.(*ssa.UnOp)
+	lb, ok2 := b.(*ssa.UnOp)
+	if ok1 && ok2 && la.Op == token.MUL && lb.Op == token.MUL {
+		return sameAddr(la.X, lb.X, depth+1)
+	}
+	return false
+}
+
+// reachingStores: for a load of a purely local variable cell (an Alloc whose only uses are stores into it, loads and
+// debug references: no closure captures it and its address goes nowhere), the stores whose value the load can observe
+// (a store reaches the load when some path leads from it to the load without another store to the cell). ok is false
+// when the cell is not purely local.
+func reachingStores(ld *ssa.UnOp) ([]*ssa.Store, bool) {
+	al, ok := ld.X.(*ssa.Alloc)
+	if !ok || ld.Op != token.MUL {
+		return nil, false
+	}
+	var stores []*ssa.Store
+	for _, r := range referrers(al) {
+		switch x := r.(type) {
+		case *ssa.Store:
+			if x.Addr != ssa.Value(al) {
+				return nil, false
+			}
+			stores = append(stores, x)
+		case *ssa.UnOp:
+			if x.Op != token.MUL {
+				return nil, false
+			}
+		case *ssa.DebugRef:
+		default:
+			return nil, false
+		}
+	}
+	isStore := func(x ssa.Instruction) bool {
+		st, ok := x.(*ssa.Store)
+		return ok && st.Addr == ssa.Value(al)
+	}
+	var out []*ssa.Store
+	for _, s := range stores {
+		if _, ok := reachAvoiding(s, func(x ssa.Instruction) bool { return x == ssa.Instruction(ld) }, isStore); ok {
+			out = append(out, s)
+		}
+	}
+	return out, true
+}
+
+// cellValue: the value a load of a purely local cell observes when exactly one store reaches it; v itself otherwise.
+func cellValue(v ssa.Value) ssa.Value {
+	for i := 0; i < 4; i++ {
+		ld, ok := v.(*ssa.UnOp)
+		if !ok {
+			return v
+		}
+		rs, ok := reachingStores(ld)
+		if !ok || len(rs) != 1 {
+			return v
+		}
+		v = rs[0].Val
+	}
+	return v
 }
